@@ -110,6 +110,17 @@ def gen(stratum, rng, tier):
             lits = [v if model[v] else -v for v in rng.sample(range(1, n + 1), 2)]
             calls.append({"assumptions": lits})
         budget = BUDGET_MID
+    elif stratum == "reduce-planted":
+        # satisfiable by construction and hard enough for >= 2000 learned clauses: clause-database reduction runs
+        # on an instance whose verdict is known (a wrong INFEASIBLE after reduce_db is visible here)
+        n = rng.randint(170, 220)
+        clauses, model = cnf.planted(rng, n, n, ratio=rng.uniform(4.7, 5.2))
+        known = True
+        calls = [{}, {"luby_factor": rng.choice([20, 30, 50])}]
+        budget = 300_000_000  # observed maximum 21M; this stratum is not the hang detector
+        shuffled = list(clauses)
+        return {"clauses": shuffled, "calls": calls, "known": known, "budget": budget, "model": model,
+                "reexamine": [{"luby_factor": lf} for lf in (10, 25, 40, 70)]}
     elif stratum == "enum":
         n = rng.randint(2, 9)
         clauses = [cnf.rand_clause(rng, n, rng.choice([2, 3, 3, 4])) for _ in range(rng.randint(1, int(n * 2.2) + 1))]
@@ -249,7 +260,11 @@ def run(case, obs, judge):
     anomalies = False
     total_conflicts = 0
     total_models = 0
-    for kw in case["calls"]:
+    _mon.KNOWN_MODEL[0] = case.get("model")
+    calls = list(case["calls"])
+    extra = list(case.get("reexamine") or [])
+    while calls:
+        kw = calls.pop(0)
         _mon.drain()
         res = call(obs, _sat.solve_sat, [list(c) for c in clauses], budget=case["budget"], what="solve_sat",
                    hang_cls="sat.no-return-within-budget" if judge == "C02" else "event-only-hang", **kw)
@@ -266,8 +281,13 @@ def run(case, obs, judge):
                 continue
             for name, n in rec["l2"].items():
                 obs.event("l2." + name, n)
+            if rec["l2"].get("learned-falsified-by-known-model") and extra and not obs.violations:
+                # unsound lemma seen on a big instance: give it more chances to surface as a wrong verdict
+                calls.extend(extra)
+                extra = []
+                obs.event("reexamined-after-unsound-lemma")
             for name in ("backtrack-wrong-prefix", "level0-or-lower-level-lost", "learned-not-entailed",
-                         "blocking-dropped", "backtrack-levels-left"):
+                         "blocking-dropped", "backtrack-levels-left", "learned-falsified-by-known-model"):
                 if rec["l2"].get(name):
                     anomalies = True
                     obs.mech.add("sat." + name)
@@ -304,6 +324,7 @@ def run(case, obs, judge):
                         _mon.judge_c01(rec, obs)
                     else:
                         _mon.judge_c02(rec, obs, known=case.get("known"))
+    _mon.KNOWN_MODEL[0] = None
     if total_conflicts >= 1 or total_models >= 2:
         obs.nontrivial = True
 
